@@ -21,6 +21,17 @@ CLAIMED = {
               "zarr zip/directory stores on every run; store kind, compression level, path type and mode are exercised "
               "only by the concrete validation/replay runs; floats are reals until realised"),
         design_ref="DESIGN.md §5 C01"),
+    "C03": dict(
+        engine="X",
+        technique="CrossHair symbolic execution of the real Dataset indexing / pad / crop / bin / fourier_resample / copy code with selector-chosen index expressions and operation histories; NumPy indexing + calibration model as oracle",
+        text=("bounded model checking: for datasets of 1-5 dimensions every index tuple built from a 10-entry per-axis menu "
+              "(ints, stepped/negative slices, lists), any tuple length and Ellipsis position is explored; operation "
+              "histories of <= 2 (quick) / 3 operations with symbolic kinds, axes, arguments and in-place flags are checked "
+              "for calibration coherence, class/dimension agreement, untouched sources and in-place == copying"),
+        note=("trusts CrossHair/z3 and NumPy; arrays are concrete (the quantified part is the index/operation structure); "
+              "slice start/stop values outside the menu, boolean/None indices and >1 list index are outside; quick tier "
+              "pins some axes' entries by VERIF_SEED for 4-D/5-D"),
+        design_ref="DESIGN.md §5 C03"),
     "C08": dict(
         engine="X",
         technique="CrossHair symbolic execution of the real save()/load() on an in-memory file system with a symbolic fault index; post-state assertion; replay with mock-injected faults on the real file system",
